@@ -1939,6 +1939,77 @@ fn run_cff_groups(s: &mut Session, rng: &mut Rng, n_cases: usize) {
     }
 }
 
+
+/// hostile gvar / CFF / CFF2 tables (and charstrings offsets): totality — Err or a readable font whose
+/// unnamed tables are untouched, never a panic (strict profile: overflow checks on)
+fn run_hostile(s: &mut Session, rng: &mut Rng, n_cases: usize) {
+    for case_no in 0..n_cases {
+        let c1 = compat_id(rng);
+        let ents: Vec<MapEntry> = (0..4).map(|_| MapEntry { delta: 0, format: 3, ignored: false }).collect();
+        let n = *rng.pick(&[1usize, 2, 3, 5, 8]);
+        let gl = |rng: &mut Rng| -> Vec<Vec<u8>> { (0..n).map(|_| { let l = *rng.pick(&[0usize, 2, 4, 6, 10]); rng.bytes(l) }).collect() };
+        let gv = GvarSpec { long: rng.chance(1, 2), axis: rng.range(0, 2) as u16, tuples: vec![], glyphs: gl(rng), swapped: rng.chance(1, 3) };
+        let tcount = rng.below(3) as usize;
+        let gv = GvarSpec { tuples: rng.bytes(2 * gv.axis as usize * tcount), ..gv };
+        let mk = |rng: &mut Rng, v2: bool| CffSpec { v2, off_size: rng.range(1, 4) as u8, prefix: cff_prefix(rng, v2), glyphs: gl(rng) };
+        let cff = mk(rng, false);
+        let cff2 = mk(rng, true);
+        let mut at1 = cff.prefix.len() as u32;
+        let mut at2 = cff2.prefix.len() as u32;
+        let target = rng.below(6);
+        if target == 3 { at1 = match rng.below(4) { 0 => 0, 1 => u32::MAX, 2 => at1 + rng.range(1, 6) as u32, _ => at1.saturating_sub(rng.range(1, 6) as u32) }; }
+        if target == 4 { at2 = match rng.below(4) { 0 => 0, 1 => u32::MAX - rng.below(4) as u32, 2 => at2 + rng.range(1, 6) as u32, _ => at2.saturating_sub(rng.range(1, 6) as u32) }; }
+        let mut tables: BTreeMap<u32, Vec<u8>> = BTreeMap::new();
+        tables.insert(HEAD, head_table(false, rng));
+        let maxp_n = if target == 5 { (n as i64 + rng.range(-1, 2)).max(0) as u16 } else { n as u16 };
+        tables.insert(tg(b"maxp"), maxp_table(maxp_n));
+        let mut corrupt = |rng: &mut Rng, mut b: Vec<u8>| -> Vec<u8> {
+            match rng.below(4) {
+                0 => { let k = rng.below(b.len() as u64 + 1) as usize; b.truncate(k); }
+                1 => { for _ in 0..rng.range(1, 3) { if !b.is_empty() { let i = rng.below(b.len() as u64) as usize; b[i] = *rng.pick(&[0u8, 1, 2, 4, 0x7f, 0x80, 0xff]); } } }
+                2 => { if b.len() > 20 { let i = rng.below(20) as usize; b[i] ^= 1 << rng.below(8); } }
+                _ => { let e = rng.below(6) as usize; b.extend_from_slice(&rng.bytes(e)); }
+            }
+            b
+        };
+        let g_bytes = if target == 0 { corrupt(rng, gvar_bytes(&gv)) } else { gvar_bytes(&gv) };
+        let c_bytes = if target == 1 { corrupt(rng, cff_bytes(&cff)) } else { cff_bytes(&cff) };
+        let c2_bytes = if target == 2 { corrupt(rng, cff_bytes(&cff2)) } else { cff_bytes(&cff2) };
+        tables.insert(GVAR, g_bytes);
+        tables.insert(CFF_, c_bytes);
+        tables.insert(CFF2, c2_bytes);
+        tables.insert(IFT_, ift_format2_ext(&c1, 0, &ents, Some(at1), Some(at2)));
+        let font = build_font(&tables);
+        let Some(base) = tables_of(&font) else { continue };
+        let infos = infos_of(&font);
+        if infos.is_empty() { continue; }
+        let mut pools: HashMap<(u32, u32), Vec<u8>> = HashMap::new();
+        let tabs: Vec<u32> = match target { 0 => vec![GVAR], 1 | 3 => vec![CFF_], 2 | 4 => vec![CFF2], _ => vec![CFF_, CFF2, GVAR] };
+        let spec = gen_group_patch(rng, n, tabs.clone(), &mut pools, true, &[0, 1, 2, 5, 300]);
+        let patch = mk_patch(spec, &c1);
+        let pairs = vec![(&infos[0], &patch)];
+        let dec = Scripted::new(None);
+        let r = apply_gk(&font, &pairs, &dec);
+        let input = || format!("hostile#{case_no} target {target}: gk n 1 {} {} | {}", infos[0].req(), hex(&patch.bytes).chars().take(600).collect::<String>(), font_req(&base).chars().take(1800).collect::<String>());
+        match &r {
+            Err(p) => s.oracle("hostile:no-panic", false, input, || p.clone()),
+            Ok(Err(e)) => { s.oracle("hostile:no-panic", true, input, String::new); s.count(&format!("hostile:err:{}", perr(e).chars().take(44).collect::<String>())); }
+            Ok(Ok(bytes)) => {
+                s.oracle("hostile:no-panic", true, input, String::new);
+                s.count("hostile:ok");
+                match tables_of(bytes) {
+                    None => s.oracle("hostile:output-readable", false, input, || "FontRef::new failed".into()),
+                    Some(out) => for (tag, d) in &base {
+                        if *tag == IFT_ || tabs.contains(tag) { continue; }
+                        let same = get(&out, *tag).map(|o| canon_head(*tag, o) == canon_head(*tag, d)).unwrap_or(false);
+                        s.oracle("gk:untouched-table-identical", same, input, || format!("table {}", hex(&tag.to_be_bytes())));
+                    },
+                }
+            }
+        }
+    }
+}
+
 // ------------------------------------------------------------------------------------------
 // one application round of a PatchGroup
 // ------------------------------------------------------------------------------------------
@@ -2170,5 +2241,6 @@ fn run(cfg: &Config, s: &mut Session) {
     run_gk_groups(s, &mut rng, 600 * k);
     run_boundary(s, &mut rng);
     run_cff_groups(s, &mut rng, 300 * k);
+    run_hostile(s, &mut rng, 1500 * k);
     run_round(s, &mut rng, 500 * k);
 }
